@@ -271,6 +271,9 @@ pub fn run(cli: Cli) -> ! {
     }
     let sample_cookie = valid_cookie(b"c02-secret", 5, CLIENT, CK_NAME, CK_UUID, &ck_props());
     let all = specs(sample_cookie.len(), cli.tier.thorough());
+    for s in [&all[0], &all[all.len() - 1]] {
+        assert_deterministic(&build(s, wall_secs()).0, "C02");
+    }
     let accepted = AtomicU64::new(0);
     let rejected = AtomicU64::new(0);
     let transitions = AtomicU64::new(0);
